@@ -97,6 +97,11 @@ func tagResult(c *Ctx, kind string, out string) {
 		return
 	}
 	c.Count(kind + "." + f[0])
+	// dfpn output: verdict move proof disproof work repetition ...: how often does a run meet a repetition on its search path?
+	if strings.HasPrefix(kind, "dfpn") && len(f) > 5 && f[0] != "panic" && f[0] != "hang" && f[5] != "0" {
+		c.Count(kind + ".repetition>0")
+		c.Count(kind + ".repetition>0." + f[0])
+	}
 	if last := f[len(f)-1]; strings.HasPrefix(last, "truth=") && last != "truth=ok" {
 		c.Count(kind + "." + last)
 	}
